@@ -5,7 +5,7 @@
    sigma, jitter, y_is_mean, with_uncertainty) to compute_conditional, i.e. the paths L = None,
    y_cov_factor = None treated here.  F: any real closed field; all sizes. *)
 From mathcomp Require Import all_ssreflect all_fingroup all_algebra.
-From MellonV Require Import MatOps MxInst MxPsd MatGen CondThm AffineThm.
+From MellonV Require Import MatOps MxInst MxPsd MxChol MatGen CondThm AffineThm ShrinkThm.
 Set Implicit Arguments.
 Unset Strict Implicit.
 Import GRing.Theory Num.Theory.
@@ -125,7 +125,19 @@ Theorem C16_uncertainty_flag_keeps_weights n m c k (K : 'M[F]_n) (Kuf : 'M[F]_(m
     & LandmarksCholCond_init_LN_sS_yT_uT_weights Kuu z mu n_obs s j = LandmarksCholCond_init_LN_sS_yT_uF_weights Kuu z mu n_obs s j].
 Proof. by split. Qed.
 
+(* in-sample predictions of the full model shrink monotonically towards the prior mean as sigma grows:
+   the squared Euclidean norm of (prediction at the training cells - prior mean) is non-increasing in |sigma| *)
+Theorem C16_shrinkage_monotone n (K : 'M[F]_n) (y : 'cV[F]_n) (mu s t j : F) :
+  sym K -> psd K -> 0 < j -> s ^+ 2 <= t ^+ 2 ->
+  let dev sigma := FullCond_mean K mu (FullCond_init_LN_sS_cN_yF_uF_weights K y mu sigma j) - const_mx mu in
+  ((dev t)^T *m dev t) 0 0 <= ((dev s)^T *m dev s) 0 0.
+Proof. by move=> sK pK j0 st; exact: (@shrinkage_monotone F cholF eigS eigV qrQ qrR chol_ok n K y mu s t j sK pK j0 st). Qed.
+
 End C16.
+
+(* non-vacuity of the library contract assumed above *)
+Theorem C16_chol_contract_satisfiable (F : rcfType) : chol_contract (@cholm F).
+Proof. exact: chol_contract_cholm. Qed.
 
 Print Assumptions C16_weights_linear_full.
 Print Assumptions C16_weights_linear_dtc.
@@ -137,3 +149,5 @@ Print Assumptions C16_interpolation.
 Print Assumptions C16_interpolation_dtc.
 Print Assumptions C16_constant_vector_sigma.
 Print Assumptions C16_uncertainty_flag_keeps_weights.
+Print Assumptions C16_shrinkage_monotone.
+Print Assumptions C16_chol_contract_satisfiable.
